@@ -18,7 +18,7 @@ RULE = ("case = (solver x noise cell, dt, grid length, cut set); every single cu
 ASSUMPTIONS = ["restart points are the grid times the one-shot run actually visited (read from the step log)",
                "the chunked run uses ONE Brownian object for all chunks; the one-shot run an equal-entropy twin"]
 REQUIRED_COUNTERS = ["chunked_runs", "extra_state_threaded", "cuts", "clipped_last_step", "far_from_zero_time_axis",
-                     "float32_brownian_float64_state"]
+                     "float32_brownian_float64_state", "via_sdeint_adjoint"]
 
 
 def cases(tier, seed):
@@ -69,9 +69,14 @@ def run_case(case):
                                          levy_area_approximation=levy, cache_size=rng.choice([1, 45, None]),
                                          dtype=torch.float32 if bm_f32 else torch.float64)
 
+    # a share of the cases runs every call (one-shot and chunks) through the forward pass of sdeint_adjoint
+    akw = dict(adjoint=True) if rng.random() < 0.3 else {}
+    cnt["via_sdeint_adjoint"] = int(bool(akw))
+    det = (lambda x: x.detach()) if akw else (lambda x: x)
     pr = probes.SolverProbe()
     with pr.installed():
-        ys_ref, extra_ref = zoo.solve(cell, sde, y0, ts, dt, bm=new_bm(), extra=True)
+        ys_ref, extra_ref = zoo.solve(cell, sde, y0, ts, dt, bm=new_bm(), extra=True, **akw)
+        ys_ref, extra_ref = det(ys_ref), tuple(det(e) for e in extra_ref)
     logged = [pr.steps[0]["t0_raw"]] + [s["t1_raw"] for s in pr.steps]
     # Restart points: the step grid of the property's statement, ts[0] + k dt, built by the same float recurrence the
     # step loop uses (t <- t + dt in ts's dtype) and cross-checked against the grid the one-shot run was SEEN to take.
@@ -103,7 +108,8 @@ def run_case(case):
         y, extra = y0, None
         for a, b in zip(bounds[:-1], bounds[1:]):
             tsc = torch.stack([torch.as_tensor(grid[a], dtype=ts.dtype), torch.as_tensor(grid[b], dtype=ts.dtype)])
-            ys, extra = zoo.solve(cell, sde, y, tsc, dt, bm=bm, extra=True, extra_solver_state=extra)
+            ys, extra = zoo.solve(cell, sde, y, tsc, dt, bm=bm, extra=True, extra_solver_state=extra, **akw)
+            ys, extra = det(ys), tuple(det(e) for e in extra)
             y = ys[-1]
         cnt["chunked_runs"] = cnt.get("chunked_runs", 0) + 1
         cnt["cuts"] = cnt.get("cuts", 0) + len(cuts)
